@@ -32,3 +32,9 @@ CLAIMS["C05"] = dict(
     note="Trusted: SSA error-edge recognition; error origins are the calls/constructed errors whose value can flow to the return after the journal write. Not covered: in-memory partial application (see SIB-5 when built), concurrency between validation and apply.",
     technique="static analysis: path query 'error return reachable after successful journal write' over SSA, keyed by error origin",
 )
+CLAIMS["C06"] = dict(
+    ref="DESIGN.md §4 C06",
+    text="Decides the admission and finishing guards of search on all paths: every push onto the layer-search result heap passes the not-Deleted test and (when an allow-list is present) the membership test (GRD-admit); every non-empty result return passes a comparison with k/limit (GRD-cap); results are sorted descending before truncation (GRD-order); fused results are emitted only when the id translation reported found (GRD-xlate); filter and graph scope are intersected and an empty allow-list returns early before any search (GRD-scope). Score values, duplicates across internal ids and behaviour under concurrent writers are NOT decided.",
+    note="Trusted: SSA dominance/path queries; roaring.Bitmap And/IsEmpty/Contains semantics. The allow-list scenario is analysed under the assumption 'a non-empty allow-list was supplied'.",
+    technique="static analysis: guard-dominates-effect path queries over SSA (must-pass-through with branch polarity)",
+)
